@@ -63,6 +63,20 @@ fn emit_io(sh: &mut Shards, ev: &str, extra: &str, w: usize, h: usize, inp: &[[f
     sh.emit(&s);
 }
 
+/// large-image variant of emit_io: the conversion ran on the whole image, only the probed positions are logged
+fn emit_io_probe(sh: &mut Shards, ev: &str, extra: &str, w: usize, h: usize, inp: &[[f32; 3]], outs: &[(&str, Result<Vec<[f32; 3]>, &'static str>)], idx: &[usize], bits: bool) {
+    let sel = |v: &Vec<[f32; 3]>| -> Vec<[f32; 3]> { idx.iter().map(|&i| v[i]).collect() };
+    let inp_sel: Vec<[f32; 3]> = idx.iter().map(|&i| inp[i]).collect();
+    let outs_sel: Vec<(&str, Result<Vec<[f32; 3]>, &'static str>)> = outs.iter().map(|(n, r)| (*n, r.as_ref().map(sel).map_err(|e| *e))).collect();
+    emit_io(sh, ev, &format!("\"probe\":1,{extra}"), w, h, &inp_sel, &outs_sel, bits);
+}
+fn big_unit(rng: &mut Rng, lo: f32, hi: f32) -> (usize, usize, Vec<[f32; 3]>, Vec<usize>) {
+    let (w, h) = crate::util::BIG;
+    let px: Vec<[f32; 3]> = (0..w * h).map(|_| [rng.f32_in(lo, hi), rng.f32_in(lo, hi), rng.f32_in(lo, hi)]).collect();
+    let idx = crate::util::probe_indices(w * h, w, rng);
+    (w, h, px, idx)
+}
+
 // ------------------------------------------------------------------------------------------
 pub fn gen_c04(sh: &mut Shards, o: &Opts) -> serde_json::Value {
     let mut rng = Rng::new(o.seed, 0x0404);
@@ -102,7 +116,9 @@ pub fn gen_c04(sh: &mut Shards, o: &Opts) -> serde_json::Value {
         let img = &px[at..at + w * h];
         emit_io(sh, "xyb", "", w, h, img, &[("out", xyb_of(img, w, h))], false);
     }
-    serde_json::json!({"pixels": n, "distinct": n})
+    let (w, h, big, idx) = big_unit(&mut rng, 0.0, 4.0);
+    emit_io_probe(sh, "xyb", "", w, h, &big, &[("out", xyb_of(&big, w, h))], &idx, false);
+    serde_json::json!({"pixels": n + (w * h) as u64, "distinct": n})
 }
 
 pub fn gen_c05(sh: &mut Shards, o: &Opts) -> serde_json::Value {
@@ -128,7 +144,11 @@ pub fn gen_c05(sh: &mut Shards, o: &Opts) -> serde_json::Value {
         let back = mid.clone().and_then(|m| lin_of_xyb(&m, w, h));
         emit_io(sh, "xybrt", "", w, h, img, &[("mid", mid), ("back", back)], false);
     }
-    serde_json::json!({"pixels": n, "distinct": n})
+    let (w, h, big, idx) = big_unit(&mut rng, 0.0, 1.0);
+    let mid = xyb_of(&big, w, h);
+    let back = mid.clone().and_then(|m| lin_of_xyb(&m, w, h));
+    emit_io_probe(sh, "xybrt", "", w, h, &big, &[("mid", mid), ("back", back)], &idx, false);
+    serde_json::json!({"pixels": n + (w * h) as u64, "distinct": n})
 }
 
 // ------------------------------------------------------------------------------------------
@@ -192,6 +212,17 @@ pub fn gen_c06(sh: &mut Shards, o: &Opts) -> serde_json::Value {
             let back = a.clone().and_then(|m| prim_to709(c, &m, w, h));
             emit_io(sh, "prim", &x, w, h, img, &[("out", a), ("back", back)], true);
         }
+    }
+    for &c in &[9u8, 4, 10] {
+        let mut rng = Rng::new(o.seed, 0x0606_b160 + u64::from(c));
+        let (w, h, big, idx) = big_unit(&mut rng, -0.5, 2.0);
+        let a = prim_to709(c, &big, w, h);
+        let back = a.clone().and_then(|m| prim_from709(c, &m, w, h));
+        emit_io_probe(sh, "prim", &format!("\"cp\":{c},\"dir\":\"to709\","), w, h, &big, &[("out", a), ("back", back)], &idx, true);
+        let a = prim_from709(c, &big, w, h);
+        let back = a.clone().and_then(|m| prim_to709(c, &m, w, h));
+        emit_io_probe(sh, "prim", &format!("\"cp\":{c},\"dir\":\"from709\","), w, h, &big, &[("out", a), ("back", back)], &idx, true);
+        n += 2 * (w * h) as u64;
     }
     serde_json::json!({"pixels": n, "primaries_direction_pairs": 22, "distinct": n})
 }
@@ -263,6 +294,12 @@ pub fn gen_c17(sh: &mut Shards, o: &Opts) -> serde_json::Value {
         let mid = hsl_of(img, w, h);
         let back = mid.clone().and_then(|m| lin_of_hsl(&m, w, h));
         emit_io(sh, "hsl", "", w, h, img, &[("out", mid), ("back", back)], false);
+    }
+    {
+        let (w, h, big, idx) = big_unit(&mut rng, 0.0, 1.0);
+        let mid = hsl_of(&big, w, h);
+        let back = mid.clone().and_then(|m| lin_of_hsl(&m, w, h));
+        emit_io_probe(sh, "hsl", "", w, h, &big, &[("out", mid), ("back", back)], &idx, false);
     }
     // reverse direction from HSL triples: L = 0 is black, L = 1 is white for any H, S in range
     let mut hs: Vec<[f32; 3]> = Vec::new();
